@@ -259,6 +259,7 @@ pub fn execute(plan: &Plan) -> Outcome {
     let mut control_done: Vec<usize> = Vec::new();
     let mut idle_iterations = 0usize;
     let mut drops = 0usize;
+    let mut passes_after_close = 0usize;
 
     let submit_extra = |client: &SyncClientHandle, receivers_pub: &mut Vec<Slot<PublishResult>>, name: &str| {
         let packet = PublishPacket::builder("extra".to_string(), QualityOfService::AtLeastOnce).with_payload(vec![9, 9, 9]).build();
@@ -280,9 +281,18 @@ pub fn execute(plan: &Plan) -> Outcome {
         }
         match phase {
             Phase::InRead => {
+                // the loop is in lock-step: every granted iteration is one pass of the real loop, so these bounds are
+                // counts of loop passes, not of time.  The Shutdown request is read from the operation channel at the top of
+                // the very next pass; the whole baseline needs about ten passes.
+                if close_issued {
+                    passes_after_close += 1;
+                    if passes_after_close > 50 { let ev = events.lock().unwrap().clone(); out.problem("close-does-not-terminate-loop", format!("50 loop passes after close() the loop is still running on an open connection; events {:?}", ev)); break 'outer; }
+                }
+                if iteration > 4000 { let ev = events.lock().unwrap().clone(); out.problem("client-stops-making-progress", format!("{} loop passes with a cooperating broker and transport and the workload is still unfinished; events {:?}", iteration, ev)); break 'outer; }
                 // bytes the transport received since the last iteration go to the broker; its answers become readable
                 let received: Vec<u8> = { let mut g = gate.inner.lock().unwrap(); std::mem::take(&mut g.received) };
                 broker.client_bytes(&received);
+                if broker.malformed.is_some() { let _ = client.close(); break 'outer; }
                 let for_client = broker.take_for_client(usize::MAX);
                 if received.is_empty() && for_client.is_empty() { idle_iterations += 1; } else { idle_iterations = 0; }
                 // user calls landed before this iteration
